@@ -70,6 +70,15 @@ def oracle (name : String) (ts : List String) : Option Bool :=
       let phis : List (PB → PB) := tl.map fun t => fun p => pBits (liftV3 (fun v => t.Transform v) (unbits p))
       pure ((m.keys ++ o.keys).all fun key =>
         decide (cornersOrZero zeroB o key = phis.flatMap (copyCorners zeroB posKey m key)))
+  | "scan_visits" => do     -- theorem scanVisits_spec: one call per vertex, in index order (parallel: harness sorts by index)
+      let (w, ts) ← pNat ts; let (nm, ts) ← pTok ts
+      let (n, ts) ← pNat ts
+      let pVisit : Parser (Nat × Float) := fun ts => do let (i, ts) ← pNat ts; let (x, ts) ← pFloat ts; pure ((i, x), ts)
+      let (vs, ts) ← pMany pVisit n ts
+      let (m, _) ← pMesh ts
+      match m.scanVisits ⟨w, nm⟩ with
+      | some exp => pure (exp.map (fun ix => (ix.1, (ix.2.headD 0.0).toBits)) == vs.map (fun ix => (ix.1, ix.2.toBits)))
+      | none => pure false
   | "same_mesh" => do
       let (m, ts) ← pB ts; let (o, _) ← pB ts
       pure (decide (m = o))
